@@ -257,3 +257,175 @@ def rewrite_tree(root, kind):
                 f.write(out)
             total += t.n
     return total
+
+
+# ------------------------------------------------------------------------------------------------------------------
+# statement-level rewrites: temporaries introduced / compound statements split (evaluation order kept)
+
+def _first_call(e):
+    """the call evaluated first in `e` when everything evaluated before it is a plain name or literal; None otherwise"""
+    if isinstance(e, ast.Call):
+        inner = None
+        f = e.func
+        if isinstance(f, ast.Attribute):
+            inner = _first_call(f.value) if not isinstance(f.value, (ast.Name, ast.Constant)) else None
+            if inner is None and not isinstance(f.value, (ast.Name, ast.Constant, ast.Attribute)):
+                return None
+        for a in list(e.args) + [k.value for k in e.keywords]:
+            if inner is not None:
+                break
+            if isinstance(a, (ast.Name, ast.Constant)):
+                continue
+            if isinstance(a, ast.Starred):
+                return None
+            inner = _first_call(a)
+            if inner is None:
+                return None if not _simple(a) else None
+            break
+        if inner is None and isinstance(e.func, ast.Name) and e.func.id == "super":
+            return None        # `super()` is never kept in a temporary
+        return inner if inner is not None else e
+    if isinstance(e, ast.BinOp):
+        if isinstance(e.left, (ast.Name, ast.Constant)):
+            return _first_call(e.right)
+        return _first_call(e.left)
+    if isinstance(e, ast.Attribute):
+        return _first_call(e.value)
+    if isinstance(e, ast.Subscript):
+        return _first_call(e.value)
+    if isinstance(e, (ast.Tuple, ast.List)) and e.elts:
+        for x in e.elts:
+            if isinstance(x, (ast.Name, ast.Constant)):
+                continue
+            return _first_call(x)
+    return None
+
+
+class _Hoist(ast.NodeTransformer):
+    """`x = f(a) + y`  ->  `_h1 = f(a); x = _h1 + y` (only the call evaluated first, and only when it is a proper sub-expression)"""
+
+    def __init__(self):
+        self.n = 0
+
+    def generic_visit(self, node):
+        node = super().generic_visit(node)
+        if isinstance(node, ast.Module):
+            return node
+        for field in ("body", "orelse", "finalbody"):
+            b = getattr(node, field, None)
+            if isinstance(b, list) and b and isinstance(b[0], ast.stmt) and not isinstance(node, ast.ClassDef):
+                setattr(node, field, self._block_noreenter(b))
+        return node
+
+    def _block_noreenter(self, stmts):
+        out = []
+        for st in stmts:
+            v = st.value if isinstance(st, (ast.Assign, ast.Return, ast.Expr)) else None
+            if v is not None:
+                c = _first_call(v)
+                if c is not None and c is not v and not any(isinstance(x, (ast.Lambda, ast.GeneratorExp, ast.ListComp, ast.DictComp, ast.SetComp, ast.IfExp,
+                                                                         ast.BoolOp, ast.Await, ast.Yield, ast.NamedExpr)) for x in ast.walk(v)):
+                    self.n += 1
+                    name = f"_h{self.n}"
+                    pre = ast.copy_location(ast.Assign(targets=[ast.Name(id=name, ctx=ast.Store())], value=c), st)
+
+                    class R(ast.NodeTransformer):
+                        def visit_Call(self, node):
+                            if node is c:
+                                return ast.Name(id=name, ctx=ast.Load())
+                            return self.generic_visit(node)
+
+                    st.value = R().visit(v)
+                    out.append(pre)
+            out.append(st)
+        return out
+
+
+class _SplitAssert(ast.NodeTransformer):
+    """`assert a and b, msg` -> `assert a, msg; assert b, msg`"""
+
+    def __init__(self):
+        self.n = 0
+
+    def generic_visit(self, node):
+        node = super().generic_visit(node)
+        for field in ("body", "orelse", "finalbody"):
+            b = getattr(node, field, None)
+            if isinstance(b, list) and b and isinstance(b[0], ast.stmt):
+                out = []
+                for st in b:
+                    if isinstance(st, ast.Assert) and isinstance(st.test, ast.BoolOp) and isinstance(st.test.op, ast.And):
+                        self.n += 1
+                        for v in st.test.values:
+                            out.append(ast.copy_location(ast.Assert(test=v, msg=st.msg), st))
+                    else:
+                        out.append(st)
+                setattr(node, field, out)
+        return node
+
+
+class _SplitUnpack(ast.NodeTransformer):
+    """`a, b = f(x)` -> `_u1 = f(x); a = _u1[0]; b = _u1[1]` for calls of repository functions whose every exit returns a tuple of that length"""
+
+    def __init__(self, tuple_returning):
+        self.tr = tuple_returning
+        self.n = 0
+
+    def generic_visit(self, node):
+        node = super().generic_visit(node)
+        for field in ("body", "orelse", "finalbody"):
+            b = getattr(node, field, None)
+            if isinstance(b, list) and b and isinstance(b[0], ast.stmt):
+                out = []
+                for st in b:
+                    ok = isinstance(st, ast.Assign) and len(st.targets) == 1 and isinstance(st.targets[0], (ast.Tuple, ast.List)) \
+                        and isinstance(st.value, ast.Call) and not any(isinstance(e, ast.Starred) for e in st.targets[0].elts)
+                    if ok:
+                        f = st.value.func
+                        name = f.attr if isinstance(f, ast.Attribute) else (f.id if isinstance(f, ast.Name) else None)
+                        ok = self.tr.get(name) == len(st.targets[0].elts)
+                    if ok:
+                        self.n += 1
+                        tmp = f"_u{self.n}"
+                        out.append(ast.copy_location(ast.Assign(targets=[ast.Name(id=tmp, ctx=ast.Store())], value=st.value), st))
+                        for i, e in enumerate(st.targets[0].elts):
+                            out.append(ast.copy_location(ast.Assign(targets=[e], value=ast.Subscript(value=ast.Name(id=tmp, ctx=ast.Load()),
+                                                                                                   slice=ast.Constant(value=i), ctx=ast.Load())), st))
+                    else:
+                        out.append(st)
+                setattr(node, field, out)
+        return node
+
+
+def rewrite_statements(root, kind):
+    """hoist-call / split-assert / split-unpack over every source file; -> number of rewritten sites"""
+    files = source_files(root)
+    mods = {}
+    for p in files:
+        try:
+            mods[p] = ast.parse(open(p, encoding="utf-8").read())
+        except SyntaxError:
+            continue
+    tr = {}
+    if kind == "split-unpack":
+        seen = {}
+        for mod in mods.values():
+            for fn in [n for n in ast.walk(mod) if isinstance(n, ast.FunctionDef)]:
+                rets = [r for r in ast.walk(fn) if isinstance(r, ast.Return)]
+                own = [r for r in rets if not any(r in list(ast.walk(g)) for g in ast.walk(fn) if isinstance(g, (ast.FunctionDef, ast.Lambda)) and g is not fn)]
+                ln = {len(r.value.elts) for r in own if isinstance(r.value, ast.Tuple)}
+                allt = own and all(isinstance(r.value, ast.Tuple) for r in own) and len(ln) == 1
+                seen.setdefault(fn.name, []).append(ln.pop() if allt else None)
+        tr = {k: v[0] for k, v in seen.items() if len(v) == 1 and v[0] is not None}
+    total = 0
+    for p, mod in mods.items():
+        t = {"hoist-call": _Hoist, "split-assert": _SplitAssert}[kind]() if kind != "split-unpack" else _SplitUnpack(tr)
+        new = t.visit(mod)
+        if t.n:
+            ast.fix_missing_locations(new)
+            out = ast.unparse(new) + "\n"
+            compile(out, p, "exec")
+            with open(p, "w", encoding="utf-8") as f:
+                f.write(out)
+            total += t.n
+    return total
